@@ -19,7 +19,8 @@ LEVEL_TEXT = ("Every literal built from <=2 atoms (letters, digit, space, every 
               " SQL words in lower / capitalised / embedded spelling (and, or, not, null, in, like, is, between, select, create, default, table, check, desc, true) are enumerated as literals too, and two more CHECK positions (compound AND expression, unnamed table-level CHECK)."
               " Wave 2 positions: literals in ALTER ... ADD CHECK / ADD DEFAULT statements and literals followed later in the script by a comment line with a lone apostrophe."
               ' Wave 5 positions: a condition list ending in an IN part (inline and named), literals after a code line whose trailing comment holds a lone apostrophe (same statement and earlier statement): 24 positions in all.'
-              ' Defect hunt: the atoms backslash+t / backslash+x / backslash+n (known finding), the words input.regex as a literal, numeric defaults through ADD CONSTRAINT .. DEFAULT n FOR col.')
+              ' Defect hunt: the atoms backslash+t / backslash+x / backslash+n (known finding), the words input.regex as a literal, numeric defaults through ADD CONSTRAINT .. DEFAULT n FOR col.'
+              ' Wave 6: an inline CHECK followed by NOT NULL as a literal position; the numeric value of alter.defaults is judged too.')
 LEVEL_NOTE = ("'All printable characters' is represented by one atom per character class plus every ASCII punctuation mark; a defect tied to "
               "one specific letter would be missed. Known findings are (literal-content feature, diff symptom) pairs; each diff of a failing "
               "case must be explained by one.")
